@@ -49,6 +49,14 @@ func NewSingleFlightProvider(provider Provider, StatsdClient *statsd.Client) *Si
 	}
 }
 
+// sessionKey builds the key of a coalesced session check: the token together with the (sorted,
+// quoted) group set the check is made for. The caller's slice is not modified.
+func sessionKey(token string, allowedGroups []string) string {
+	groups := append([]string{}, allowedGroups...)
+	sort.Strings(groups)
+	return fmt.Sprintf("%q:%q", token, groups)
+}
+
 func (p *SingleFlightProvider) do(endpoint, key string, fn func() (interface{}, error)) (interface{}, error) {
 	compositeKey := fmt.Sprintf("%s/%s", endpoint, key)
 	resp, shared, err := p.single.Do(compositeKey, fn)
@@ -97,7 +105,8 @@ func (p *SingleFlightProvider) UserGroups(email string, groups []string, accessT
 
 // ValidateSessionState calls the provider's ValidateSessionState function and returns the response
 func (p *SingleFlightProvider) ValidateSessionState(s *sessions.SessionState, allowedGroups []string) bool {
-	response, err := p.do("ValidateSessionState", s.AccessToken, func() (interface{}, error) {
+	// the answer depends on the group set that is checked, so it is part of the key
+	response, err := p.do("ValidateSessionState", sessionKey(s.AccessToken, allowedGroups), func() (interface{}, error) {
 		valid := p.provider.ValidateSessionState(s, allowedGroups)
 		return valid, nil
 	})
@@ -116,7 +125,8 @@ func (p *SingleFlightProvider) ValidateSessionState(s *sessions.SessionState, al
 // RefreshSession takes in a SessionState and allowedGroups and
 // returns false if the session is not refreshed and true if it is.
 func (p *SingleFlightProvider) RefreshSession(s *sessions.SessionState, allowedGroups []string) (bool, error) {
-	response, err := p.do("RefreshSession", s.RefreshToken, func() (interface{}, error) {
+	// the answer depends on the group set that is checked, so it is part of the key
+	response, err := p.do("RefreshSession", sessionKey(s.RefreshToken, allowedGroups), func() (interface{}, error) {
 		return p.provider.RefreshSession(s, allowedGroups)
 	})
 	if err != nil {
